@@ -74,6 +74,13 @@ func (spm *spotMgr) manageSpotlights(ctx context.Context) (err error) {
 			defer wg.Done()
 			log.Info(spotCtx, "<shining>")
 			err := errors.WithContextTags(spm.spotlight(ctx, a), ctx)
+			if err == nil {
+				// The spotlight command ended by itself without error.
+				// This must not end the play: like the pseudo-spotlight
+				// used when there is no spotlight at all, wait for the
+				// prompter to finish.
+				err = spm.pseudoSpotlight(ctx)
+			}
 			if errors.Is(err, context.Canceled) {
 				// It's ok if a sportlight is canceled.
 				err = nil
